@@ -24,8 +24,8 @@ theorem write_core {s s' : State} (hi : Inv s) {b k c : Bytes} {t ds : Tree} {p 
   · exact inv_write_buckets hi ht hp hds hnd hb'
 
 /-- `copy_object` may be compared with the store (a copy of an object onto itself included): names agree and side-file
-    names fit; for admissible names the source bucket exists [else fs:missing-bucket-reported-as-missing-key] and the source
-    is not a leftover directory; when the copy can happen the destination path is free, the destination has no metadata
+    names fit; for admissible names the source is not a leftover directory (a missing source bucket is inside since
+    391a940: `NoSuchBucket` on both sides; before: fs:missing-bucket-reported-as-missing-key); when the copy can happen the destination path is free, the destination has no metadata
     file the source lacks [fs:stale-metadata-after-copy] and both have the same recorded checksums
     [fs:stale-checksum-after-copy] -/
 def CopyOk (s : State) (sb sk db dk : Bytes) : Prop :=
@@ -35,7 +35,7 @@ def CopyOk (s : State) (sb sk db dk : Bytes) : Prop :=
     match keyPath sk, keyPath dk with
     | some sp, some dp =>
       match s.tree sb with
-      | none => False
+      | none => True
       | some st =>
         match st.node sp with
         | none => True
@@ -129,7 +129,12 @@ theorem copy_refines (H : Hashes) (dl : Nat) {s : State} (hi : Inv s) {sb sk db 
           have hsp : PathOk sp := keyPath_pathOk hskp
           have hdp : PathOk dp := keyPath_pathOk hdkp
           cases hst : s.tree sb with
-          | none => rw [hst] at hmain; exact absurd hmain (by simp)
+          | none =>
+            have hsabs : (abs s).bucket sb = none := by rw [abs_bucket, hst]; rfl
+            have hh : alHas sb s.buckets = false := by
+              unfold State.tree at hst; simp [alHas, hst]
+            simp [step, StoreSpec.step, objPath, hsbd, hskp, hsbo, hsko, hdbd, hdkp, hdbo, hdko, hsabs, State.node, hst,
+              hh, hi]
           | some st =>
             rw [hst] at hmain
             simp only at hmain
@@ -139,9 +144,11 @@ theorem copy_refines (H : Hashes) (dl : Nat) {s : State} (hi : Inv s) {sb sk db 
             have hsnode : s.node sb sp = st.node sp := by simp [State.node, hst]
             cases hsn : st.node sp with
             | none =>
+              have hh : alHas sb s.buckets = true := by
+                unfold State.tree at hst; simp [alHas, hst]
               rw [hsn] at hslook
               simp [step, StoreSpec.step, objPath, hsbd, hskp, hsbo, hsko, hdbd, hdkp, hdbo, hdko, hsabs, hsnode, hsn,
-                hslook, hi]
+                hslook, hh, hi]
             | some n =>
               cases n with
               | dir => rw [hsn] at hmain; exact absurd hmain (by simp)
